@@ -1,6 +1,7 @@
 package main
 
 import (
+	"math"
 	"unicode/utf8"
 	"fmt"
 	"strconv"
@@ -233,6 +234,12 @@ func encPct(f float64) string {
 	if neg {
 		f = -f
 	}
+	if f >= 1<<63 {
+		if neg {
+			return "-huge"
+		}
+		return "huge"
+	}
 	// f = m * 2^e with m integer < 2^53
 	exp := 0
 	for f != float64(uint64(f)) || f >= 1<<63 {
@@ -258,6 +265,12 @@ func decPct(s string) (float64, bool) {
 	neg := strings.HasPrefix(s, "-")
 	if neg {
 		s = s[1:]
+	}
+	if s == "huge" {
+		if neg {
+			return -math.MaxFloat64, true
+		}
+		return math.MaxFloat64, true
 	}
 	p := strings.Split(s, "/")
 	if len(p) != 2 {
